@@ -328,6 +328,18 @@ def run_edge(sx):
     lo, hi = min(i, j), max(i, j)
     sx.prove_close(L, _polylen(sx, [P[k] for k in range(lo, hi + 1)]), "its length is the curve length between the two vertices",
                    key="C16:edge:length")
+    # the second vertex slides along the curve (what an optimizer does); the edge is asked again
+    j2 = j - step
+    if abs(j2 - i) >= 1 and j2 != i:
+        v2.move_to(P[j2] + sx.vec(-0.01, 0.01, 0.005))
+        pa2, L2 = edge.point_array, edge.length
+        want2 = [P[k] for k in range(i + step, j2, step)]
+        sx.prove(len(pa2) == len(want2) and sx.all([_close3(sx, x, y) for x, y in zip(pa2, want2)]),
+                 f"curve-snapped edge {i}->{j}, second vertex moved to curve point {j2}: written with the curve points between "
+                 "its vertices' present positions", "C16:edge:points:after-move", info={"i": i, "j": j, "j2": j2, "n": len(pa2)})
+        lo2, hi2 = min(i, j2), max(i, j2)
+        sx.prove_close(L2, _polylen(sx, [P[k] for k in range(lo2, hi2 + 1)]), "after the move its length is the curve length "
+                       "between the present vertex positions", key="C16:edge:length:after-move")
     return "edge"
 
 
